@@ -21,20 +21,38 @@ M = {
  "divmod-noasm": ("mathutils_go.go", "func divmod(a, b int) (q, r int) {", "func divmod(a, b int) (q, r int) {\n\tif a < 0 {\n\t\treturn -((-a) / b), (-a) % b\n\t}", ["C20"], "pure-Go divmod returns a positive remainder for negative dividends (noasm build only)"),
  "borrowints-shares": ("perf.go", "\tretVal := intsPool[size].Get()\n\tif retVal == nil {\n\t\treturn make([]int, size)\n\t}", "\tretVal := intsPool[size].Get()\n\tif retVal == nil {\n\t\treturn make([]int, size)\n\t}\n\tif size == 2 {\n\t\tintsPool[size].Put(retVal)\n\t}", ["C19", "C18"], "BorrowInts(2) hands out a slice and leaves it in the free list"),
 }
+M.update({
+ "ap-s-step3": ("ap.go", "newStrides[i] = stride * step", "newStrides[i] = stride * step\n\t\t\tif step >= 3 && len(ap.shape) >= 3 {\n\t\t\t\tnewStrides[i] = stride * (step - 1)\n\t\t\t}", ["C02", "C13"], "steps >= 3 on tensors of rank >= 3 use stride*(step-1)"),
+ "ndnext-rank4": ("iterator.go", "\t\t\tnextIndex -= (shapeI - 1) * strideI\n\t\t\tcontinue", "\t\t\tnextIndex -= (shapeI - 1) * strideI\n\t\t\tif v == 3 && i == 1 && strideI != it.strides[2]*it.shape[2] {\n\t\t\t\tnextIndex -= strideI\n\t\t\t}\n\t\t\tcontinue", ["C05", "C01"], "odometer carry out of axis 1 of a rank-4 non-contiguous iterator subtracts one stride too many", 1),
+ "safe-iter-sub-inplace": ("defaultengine_arith.go", "\t\t\tif swap {\n\t\t\t\tretVal = b.Clone().(Tensor)\n\t\t\t} else {\n\t\t\t\tretVal = a.Clone().(Tensor)\n\t\t\t}\n\t\t\terr = e.E.SubIter(typ, retVal.hdr(), dataB, ait, bit)", "\t\t\tretVal = a\n\t\t\terr = e.E.SubIter(typ, dataA, dataB, ait, bit)", ["C07", "C06"], "safe Sub on the iterator path computes in place in operand a"),
+ "argmax-f32-last": ("internal/execution/generic_argmethods.go", "\t\tif math32.IsNaN(v) || math32.IsInf(v, 1) {\n\t\t\tmax = i\n\t\t\treturn max\n\t\t}\n\t\tif v > f {", "\t\tif math32.IsNaN(v) || math32.IsInf(v, 1) {\n\t\t\tmax = i\n\t\t\treturn max\n\t\t}\n\t\tif v >= f {", ["C08", "C17"], "float32 argmax returns the LAST index of the maximum", 1),
+ "clone-lazyT-returns-tw": ("dense.go", "\t\t\tif t.transposeWith != nil {\n\t\t\t\tretVal.transposeWith = append(make([]int, 0, len(t.transposeWith)), t.transposeWith...)", "\t\t\tif t.transposeWith != nil {\n\t\t\t\tReturnInts(t.transposeWith)\n\t\t\t\tretVal.transposeWith = append(make([]int, 0, len(t.transposeWith)), t.transposeWith...)", ["C19", "C03"], "Clone of a lazily transposed tensor hands the source's axes slice to the pool"),
+ "ut-rank3-keeps-tw": ("dense_matop.go", "\t\tt.old.zeroOnly()\n\t\tt.transposeWith = nil\n\t}\n}\n\n// SafeT", "\t\tt.old.zeroOnly()\n\t\tif t.Dims() < 3 {\n\t\t\tt.transposeWith = nil\n\t\t}\n\t}\n}\n\n// SafeT", ["C03", "C19"], "UT of a rank >= 3 tensor keeps the (returned) axes slice"),
+ "borrowints-size4-double": ("perf.go", "\treturn retVal.([]int)[:size]\n}", "\tif size == 4 {\n\t\tintsPool[size].Put(retVal)\n\t}\n\treturn retVal.([]int)[:size]\n}", ["C19", "C18"], "BorrowInts(4) hands out a slice and leaves it in the free list"),
+ "reset-reverse-rank3": ("iterator.go", "\t\t\tit.nextIndex = 0\n\t\t\tfor i := range it.track {\n\t\t\t\tit.nextIndex += (it.shape[i] - 1) * it.strides[i]\n\t\t\t}", "\t\t\tit.nextIndex = 0\n\t\t\tfor i := range it.track {\n\t\t\t\tif i == 1 && len(it.track) == 3 && it.strides[2] != 1 {\n\t\t\t\t\tcontinue\n\t\t\t\t}\n\t\t\t\tit.nextIndex += (it.shape[i] - 1) * it.strides[i]\n\t\t\t}", ["C05"], "Reset of a reversed rank-3 strided iterator forgets the middle axis", 1),
+ "slice-mask-window": ("dense_matop.go", "\tif t.IsMasked() {\n\t\tview.mask = t.mask[ndStart:ndEnd]\n\t}\n\n\treturn view, err\n}", "\tif t.IsMasked() {\n\t\tview.mask = t.mask[ndStart:ndEnd]\n\t\tif t.IsView() && ndStart > 0 {\n\t\t\tview.mask = t.mask[ndStart-1 : ndEnd-1]\n\t\t}\n\t}\n\n\treturn view, err\n}", ["C15", "C05"], "mask window of a slice of a masked VIEW is shifted by one", 1),
+})
 HELPER = {"colmajor-strides-reversed": ("shape.go", "\nfunc boolToInt(b bool) int {\n\tif b {\n\t\treturn 1\n\t}\n\treturn 0\n}\n")}
 ids = sys.argv[1:] or list(M)
 out = []
 for mid in ids:
-    f, old, new, props, what = M[mid]
+    f, old, new, props, what = M[mid][:5]
+    nth = M[mid][5] if len(M[mid]) > 5 else 0
     wt = "/tmp/vw-own-" + mid
     subprocess.run(["git", "-C", "/repo", "worktree", "remove", "--force", wt], capture_output=True)
     subprocess.run(["git", "-C", "/repo", "worktree", "add", "-q", "--detach", wt, "HEAD"], check=True)
     p = os.path.join(wt, f); s = open(p).read()
     res = {"id": mid, "what": what, "file": f, "checks": {}}
-    if s.count(old) != 1:
+    if (nth == 0 and s.count(old) != 1) or s.count(old) < max(nth, 1):
         res["status"] = "pattern occurs %d times - skipped" % s.count(old)
     else:
-        s = s.replace(old, new)
+        if nth == 0:
+            s = s.replace(old, new)
+        else:
+            pos = -1
+            for _ in range(nth):
+                pos = s.index(old, pos + 1)
+            s = s[:pos] + new + s[pos + len(old):]
         if mid in HELPER: s += HELPER[mid][1]
         open(p, "w").write(s)
         b = subprocess.run("go build ./... && go vet -tags noasm ./ >/dev/null 2>&1; go build -tags noasm ./... && go build -tags inplacetranspose ./...", shell=True, cwd=wt, env=ENV, capture_output=True, text=True)
